@@ -584,35 +584,223 @@ Definition parse_query (fuel : nat) (s : str) : outcome (list pdef) :=
     bindo (check_items items None []) (fun _ => Ok items))))
   end.
 
-(* parse_schema, modelled only as far as the pest layer: kind, name and
-   description (parse_string of the leading `string?`) of every definition,
-   or a syntax error *)
-Definition sdl_description (t : tree) : option str :=
-  match filter (fun x => t_rule x =? R_string) (t_kids t) with
-  | d :: _ => match parse_string d with Ok s => Some s | _ => None end
-  | [] => None
+(* ------------------------------------------- service documents ---------- *)
+(* mirror of parser/src/types/service.rs (positions dropped) *)
+Record sinput := { iv_desc : option str; iv_name : str; iv_ty : ptype;
+                   iv_default : option pvalue; iv_dirs : list pdirective }.
+Record sfield := { fd_desc : option str; fd_name : str; fd_args : list sinput;
+                   fd_ty : ptype; fd_dirs : list pdirective }.
+Record senumval := { ev_desc : option str; ev_name : str; ev_dirs : list pdirective }.
+Inductive skind :=
+| KScalar
+| KObject (implements : list str) (fields : list sfield)
+| KInterface (implements : list str) (fields : list sfield)
+| KUnion (members : list str)
+| KEnum (values : list senumval)
+| KInput (fields : list sinput).
+Inductive sdef :=
+| SSchema (extend : bool) (dirs : list pdirective) (query mutation subscription : option str)
+| SType (extend : bool) (desc : option str) (name : str) (dirs : list pdirective) (kind : skind)
+| SDirective (desc : option str) (name : str) (args : list sinput) (repeatable : bool) (locations : list str).
+
+Definition E_MULTIPLE_ROOTS : N := 7.
+Definition E_MISSING_QUERY_ROOT : N := 8.
+
+(* parse_if_rule(&mut pairs, Rule::string, parse_string) *)
+Definition parse_opt_description (l : list tree) : outcome (option str) * list tree :=
+  let '(d, rest) := next_if_rule R_string l in
+  (match d with
+   | Some d => bindo (parse_string d) (fun s => Ok (Some s))
+   | None => Ok None
+   end, rest).
+
+(* service.rs parse_input_value_definition: description?, name, type,
+   default_value?, const_directives?; what is left is not looked at *)
+Definition parse_input_value_definition (t : tree) : outcome sinput :=
+  bindo (expect_rule R_input_value_definition t) (fun t =>
+  let '(desc, rest0) := parse_opt_description (t_kids t) in
+  bindo desc (fun desc =>
+  match rest0 with
+  | n :: ty :: rest1 =>
+    bindo (parse_name n) (fun name =>
+    bindo (parse_type ty) (fun ty =>
+    let '(dv, rest2) := next_if_rule R_default_value rest1 in
+    bindo (match dv with
+           | Some dv => bindo (exactly_one (t_kids dv)) (fun v =>
+                        bindo (parse_value VFUEL R_const_value v) (fun x => Ok (Some x)))
+           | None => Ok None
+           end) (fun dv =>
+    let '(dirs, _) := parse_opt_directives R_const_value rest2 in
+    bindo dirs (fun dirs =>
+    Ok {| iv_desc := desc; iv_name := name; iv_ty := ty; iv_default := dv; iv_dirs := dirs |}))))
+  | _ => Panic
+  end)).
+
+Definition parse_field_definition (t : tree) : outcome sfield :=
+  bindo (expect_rule R_field_definition t) (fun t =>
+  let '(desc, rest0) := parse_opt_description (t_kids t) in
+  bindo desc (fun desc =>
+  match rest0 with
+  | n :: rest1 =>
+    bindo (parse_name n) (fun name =>
+    let '(a, rest2) := next_if_rule R_arguments_definition rest1 in
+    bindo (match a with
+           | Some a => mapo parse_input_value_definition (t_kids a)
+           | None => Ok []
+           end) (fun args =>
+    match rest2 with
+    | ty :: rest3 =>
+      bindo (parse_type ty) (fun ty =>
+      let '(dirs, rest4) := parse_opt_directives R_const_value rest3 in
+      bindo dirs (fun dirs =>
+      match rest4 with
+      | [] => Ok {| fd_desc := desc; fd_name := name; fd_args := args; fd_ty := ty; fd_dirs := dirs |}
+      | _ => Panic
+      end))
+    | [] => Panic
+    end))
+  | [] => Panic
+  end)).
+
+Definition parse_enum_value_definition (t : tree) : outcome senumval :=
+  bindo (expect_rule R_enum_value_definition t) (fun t =>
+  let '(desc, rest0) := parse_opt_description (t_kids t) in
+  bindo desc (fun desc =>
+  match rest0 with
+  | v :: rest1 =>
+    bindo (expect_rule R_enum_value v) (fun v =>
+    bindo (exactly_one (t_kids v)) (fun n =>
+    bindo (parse_name n) (fun name =>
+    let '(dirs, rest2) := parse_opt_directives R_const_value rest1 in
+    bindo dirs (fun dirs =>
+    match rest2 with
+    | [] => Ok {| ev_desc := desc; ev_name := name; ev_dirs := dirs |}
+    | _ => Panic
+    end))))
+  | [] => Panic
+  end)).
+
+Definition parse_opt_names (r : N) (l : list tree) : outcome (list str) * list tree :=
+  let '(x, rest) := next_if_rule r l in
+  (match x with Some x => mapo parse_name (t_kids x) | None => Ok [] end, rest).
+
+Definition parse_opt_fields (l : list tree) : outcome (list sfield) * list tree :=
+  let '(x, rest) := next_if_rule R_fields_definition l in
+  (match x with Some x => mapo parse_field_definition (t_kids x) | None => Ok [] end, rest).
+
+Definition parse_type_definition (t : tree) : outcome sdef :=
+  bindo (expect_rule R_type_definition t) (fun t =>
+  bindo (exactly_one (t_kids t)) (fun ty =>
+  let rule := t_rule ty in
+  let '(desc, rest0) := parse_opt_description (t_kids ty) in
+  bindo desc (fun desc =>
+  let '(ext, rest1) := next_if_rule R_extend rest0 in
+  let extend := match ext with Some _ => true | None => false end in
+  match rest1 with
+  | n :: rest2 =>
+    bindo (parse_name n) (fun name =>
+    let finish (dirs : list pdirective) (kind : skind) (rest : list tree) : outcome sdef :=
+        match rest with
+        | [] => Ok (SType extend desc name dirs kind)
+        | _ => Panic
+        end in
+    if rule =? R_scalar_type then
+      let '(dirs, rest3) := parse_opt_directives R_const_value rest2 in
+      bindo dirs (fun dirs => finish dirs KScalar rest3)
+    else if (rule =? R_object_type) || (rule =? R_interface_type) then
+      let '(impl, rest3) := parse_opt_names R_implements_interfaces rest2 in
+      bindo impl (fun impl =>
+      let '(dirs, rest4) := parse_opt_directives R_const_value rest3 in
+      bindo dirs (fun dirs =>
+      let '(fields, rest5) := parse_opt_fields rest4 in
+      bindo fields (fun fields =>
+      finish dirs (if rule =? R_object_type then KObject impl fields else KInterface impl fields) rest5)))
+    else if rule =? R_union_type then
+      let '(dirs, rest3) := parse_opt_directives R_const_value rest2 in
+      bindo dirs (fun dirs =>
+      let '(members, rest4) := parse_opt_names R_union_member_types rest3 in
+      bindo members (fun members => finish dirs (KUnion members) rest4))
+    else if rule =? R_enum_type then
+      let '(dirs, rest3) := parse_opt_directives R_const_value rest2 in
+      bindo dirs (fun dirs =>
+      let '(vs, rest4) := next_if_rule R_enum_values rest3 in
+      bindo (match vs with Some vs => mapo parse_enum_value_definition (t_kids vs) | None => Ok [] end) (fun vs =>
+      finish dirs (KEnum vs) rest4))
+    else if rule =? R_input_object_type then
+      let '(dirs, rest3) := parse_opt_directives R_const_value rest2 in
+      bindo dirs (fun dirs =>
+      let '(fs, rest4) := next_if_rule R_input_fields_definition rest3 in
+      bindo (match fs with Some fs => mapo parse_input_value_definition (t_kids fs) | None => Ok [] end) (fun fs =>
+      finish dirs (KInput fs) rest4))
+    else Panic)
+  | [] => Panic
+  end))).
+
+(* the loop over operation_type_definition pairs of parse_schema_definition *)
+Fixpoint schema_roots (l : list tree) (q m s : option str) : outcome (option str * option str * option str) :=
+  match l with
+  | [] => Ok (q, m, s)
+  | p :: r =>
+    bindo (expect_rule R_operation_type_definition p) (fun p =>
+    match t_kids p with
+    | [ot; n] =>
+      bindo (parse_operation_type ot) (fun ot =>
+      bindo (parse_name n) (fun name =>
+      match ot, q, m, s with
+      | POQuery, None, _, _ => schema_roots r (Some name) m s
+      | POMutation, _, None, _ => schema_roots r q (Some name) s
+      | POSubscription, _, _, None => schema_roots r q m (Some name)
+      | _, _, _, _ => Err E_MULTIPLE_ROOTS
+      end))
+    | _ => Panic
+    end)
   end.
 
-Definition sdl_summary (t : tree) : list (N * str * option str) :=
-  flat_map (fun d =>
-    flat_map (fun k =>
-      if t_rule k =? R_type_definition then
-        flat_map (fun ty =>
-          match filter (fun x => t_rule x =? R_name) (t_kids ty) with
-          | n :: _ => [(t_rule ty, t_text n, sdl_description ty)]
-          | [] => [(t_rule ty, [], sdl_description ty)]
-          end) (t_kids k)
-      else if t_rule k =? R_directive_definition then
-        match filter (fun x => t_rule x =? R_name) (t_kids k) with
-        | n :: _ => [(t_rule k, t_text n, sdl_description k)]
-        | [] => [(t_rule k, [], sdl_description k)]
-        end
-      else [(t_rule k, [], None)]) (t_kids d))
-    (filter (fun t => negb (t_rule t =? R_EOI)) (t_kids t)).
+Definition parse_schema_definition (t : tree) : outcome sdef :=
+  let '(ext, rest0) := next_if_rule R_extend (t_kids t) in
+  let extend := match ext with Some _ => true | None => false end in
+  let '(dirs, rest1) := parse_opt_directives R_const_value rest0 in
+  bindo dirs (fun dirs =>
+  bindo (schema_roots rest1 None None None) (fun qms =>
+  let '(q, m, s) := qms in
+  if negb extend && match q with None => true | Some _ => false end then Err E_MISSING_QUERY_ROOT
+  else Ok (SSchema extend dirs q m s))).
 
-Definition parse_schema_peg (fuel : nat) (s : str) : outcome (list (N * str * option str)) :=
+Definition parse_directive_definition (t : tree) : outcome sdef :=
+  let '(desc, rest0) := parse_opt_description (t_kids t) in
+  bindo desc (fun desc =>
+  match rest0 with
+  | n :: rest1 =>
+    bindo (parse_name n) (fun name =>
+    let '(a, rest2) := next_if_rule R_arguments_definition rest1 in
+    bindo (match a with Some a => mapo parse_input_value_definition (t_kids a) | None => Ok [] end) (fun args =>
+    let '(rp, rest3) := next_if_rule R_repeatable rest2 in
+    let repeatable := match rp with Some _ => true | None => false end in
+    match rest3 with
+    | [locs] =>
+      bindo (expect_rule R_directive_locations locs) (fun locs =>
+      bindo (mapo (fun l => bindo (expect_rule R_directive_location l) (fun l => Ok (t_text l))) (t_kids locs)) (fun ls =>
+      Ok (SDirective desc name args repeatable ls)))
+    | _ => Panic
+    end))
+  | [] => Panic
+  end).
+
+Definition parse_type_system_definition (t : tree) : outcome sdef :=
+  bindo (expect_rule R_type_system_definition t) (fun t =>
+  bindo (exactly_one (t_kids t)) (fun k =>
+    if t_rule k =? R_schema_definition then parse_schema_definition k
+    else if t_rule k =? R_type_definition then parse_type_definition k
+    else if t_rule k =? R_directive_definition then parse_directive_definition k
+    else Panic)).
+
+(* parse_schema: pest, then the builders in document order *)
+Definition parse_schema (fuel : nat) (s : str) : outcome (list sdef) :=
   match parse_rule grammar fuel R_service_document s with
   | POof => OutOfFuel
   | PFail => Err E_SYNTAX
-  | PMatch _ _ ts => bindo (exactly_one ts) (fun doc => Ok (sdl_summary doc))
+  | PMatch _ _ ts =>
+    bindo (exactly_one ts) (fun doc =>
+    bindo (expect_rule R_service_document doc) (fun doc =>
+    mapo parse_type_system_definition (filter (fun t => negb (t_rule t =? R_EOI)) (t_kids doc))))
   end.
